@@ -307,6 +307,10 @@ type c18M struct {
 	mark    map[string]int                 // model feed length per dataset at the start of the phase
 	spans   map[string][][2]int            // per dataset: model feed index range [from,to) each write batch appended
 	lastTok map[string]uint64
+	// datasets deleted and created again under their name during the case: the token the job keeps
+	// for them belongs to the old dataset's change feed; nothing is asserted about it any more, nor
+	// about emissions their own later changes cause (the property does not speak about that)
+	recreated map[string]bool
 	firstDone,
 	inconclusive bool
 	nt     bool
@@ -347,6 +351,26 @@ func (c *c18M) write(op c18Op) {
 	if to := len(c.m.DS[op.DS].Feed); to > from {
 		c.spans[op.DS] = append(c.spans[op.DS], [2]int{from, to})
 	}
+}
+
+// recreate: an intermediate join dataset is deleted and created again under its name (empty).
+func (c *c18M) recreate(ds string) {
+	c.cs.Hist = append(c.cs.Hist, c18Op{K: "recreate", DS: ds})
+	kit.Journal(c.cs)
+	if err := c.h.Dsm.DeleteDataset(ds); err != nil {
+		c.fail("VERIF-INFRA delete %s: %v", ds, err)
+	}
+	c.h.createDataset(ds)
+	c.m.Delete(ds)
+	c.m.Create(ds)
+	c.mark[ds] = 0
+	c.spans[ds] = nil
+	c.prev[ds] = map[string]*kit.Ent{}
+	if c.recreated == nil {
+		c.recreated = map[string]bool{}
+	}
+	c.recreated[ds] = true
+	c.cls["join-dataset-recreated"] = true
 }
 
 // f24Shape: known finding F24. The job reads a dependency's changes in pages of
@@ -421,6 +445,9 @@ func (c *c18M) expected() (map[string]string, bool) {
 	exp := map[string]string{}
 	nt := false
 	for _, d := range c.cfg.deps() {
+		if c.recreated[d.DS] {
+			continue
+		}
 		changed := map[string]bool{}
 		for _, e := range c.m.DS[d.DS].Feed[c.mark[d.DS]:] {
 			changed[e.ID] = true
@@ -482,6 +509,9 @@ func (c *c18M) expectedNow() (map[string]string, bool) {
 	cur := c.graph()
 	exp := map[string]string{}
 	for _, d := range c.cfg.deps() {
+		if c.recreated[d.DS] {
+			continue
+		}
 		changed := map[string]bool{}
 		for _, e := range c.m.DS[d.DS].Feed[c.mark[d.DS]:] {
 			changed[e.ID] = true
@@ -535,6 +565,9 @@ func (c *c18M) checkTokens(token string) {
 		return n
 	}
 	check := func(ds string, pos uint64) {
+		if c.recreated[ds] {
+			return
+		}
 		_, end := c.h.changes(ds, 0)
 		if pos > end {
 			c.fail("token of %s is %d, beyond the end of its change feed (%d): changes up to there were never processed", ds, pos, end)
@@ -768,7 +801,9 @@ func TestVerif_C18(t *testing.T) {
 				if rapid.IntRange(0, 3).Draw(t, "midWrite") == 0 {
 					var cand []string
 					for _, d := range cfg.path() {
-						if d != "main" { // never the main dataset
+						// never the main dataset; nor a dataset that was re-created (what its own changes
+						// cause is not asserted any more, see recreated)
+						if d != "main" && !c.recreated[d] {
 							cand = append(cand, d)
 						}
 					}
@@ -796,6 +831,24 @@ func TestVerif_C18(t *testing.T) {
 		}
 		// a second entry for the dependency side keeps link changes frequent
 		acts["write-dep2"] = acts["write-dep"]
+		for _, ds := range cfg.path() {
+			ds := ds
+			if ds == "dep" || ds == "main" {
+				continue
+			}
+			acts["recreate-"+ds] = func(t *rapid.T) {
+				if !c.firstDone || rapid.IntRange(0, 3).Draw(t, "rare") != 0 {
+					t.Skip("before the first run / rare")
+				}
+				c.recreate(ds)
+				// the new dataset gets links again
+				op := c18Op{K: "write", DS: ds}
+				for i := rapid.IntRange(1, 3).Draw(t, "n"); i > 0; i-- {
+					op.Ents = append(op.Ents, c18GenEnt(t, h.P, cfg, ds))
+				}
+				c.write(op)
+			}
+		}
 		t.Repeat(acts)
 		c.sync(0)
 	})
